@@ -32,6 +32,7 @@ theorem localsRaw_eq (lf : Labels) (pos : Nat → Nat) (as : List SCodeAttr) :
         | (cases localsOf as <;> simp)
         | (apply List.map_congr_left; intro v _; simp [lvRaw, SLv.fact])
     | lines _ _ => simp [localsRaw, localsOf, ih]
+    | frames _ _ => simp [localsRaw, localsOf, ih]
     | unknown _ _ _ => simp [localsRaw, localsOf, ih]
 
 theorem mem_linesOf (as : List SCodeAttr) (ls : List (Nat × Nat)) (h : linesOf as = some ls) (e : Nat × Nat) (he : e ∈ ls) :
@@ -54,6 +55,7 @@ theorem mem_linesOf (as : List SCodeAttr) (ls : List (Nat × Nat)) (h : linesOf 
     | lvt _ _ => simp only [linesOf] at h; obtain ⟨nc', es', hm, he'⟩ := ih ls h he; exact ⟨nc', es', by simp [hm], he'⟩
     | lvtt _ _ => simp only [linesOf] at h; obtain ⟨nc', es', hm, he'⟩ := ih ls h he; exact ⟨nc', es', by simp [hm], he'⟩
     | unknown _ _ _ => simp only [linesOf] at h; obtain ⟨nc', es', hm, he'⟩ := ih ls h he; exact ⟨nc', es', by simp [hm], he'⟩
+    | frames _ _ => simp only [linesOf] at h; obtain ⟨nc', es', hm, he'⟩ := ih ls h he; exact ⟨nc', es', by simp [hm], he'⟩
 
 theorem mem_localsOf (as : List SCodeAttr) (ls : List Lv) (h : localsOf as = some ls) (v : Lv) (hv : v ∈ ls) :
     ∃ nc es sv, (SCodeAttr.lvt nc es ∈ as ∨ SCodeAttr.lvtt nc es ∈ as) ∧ sv ∈ es ∧ v.start = sv.start ∧ v.end_ = sv.end_ := by
@@ -85,18 +87,111 @@ theorem mem_localsOf (as : List SCodeAttr) (ls : List Lv) (h : localsOf as = som
         | none => simp [hl] at h1
         | some ls' => simp only [hl, Option.getD_some] at h1; exact tail ls' hl h1
     | lines _ _ => simp only [localsOf] at h; exact tail ls h hv
+    | frames _ _ => simp only [localsOf] at h; exact tail ls h hv
     | unknown _ _ _ => simp only [localsOf] at h; exact tail ls h hv
 
+def svTargets : SVType → List Nat
+  | .uninit t => [t]
+  | _ => []
+
+def kindTargets : SFrameKind → List Nat
+  | .same1 v => svTargets v
+  | .append vs => vs.flatMap svTargets
+  | .full ls ss => ls.flatMap svTargets ++ ss.flatMap svTargets
+  | _ => []
+
+theorem vtype_resolve (m : List (Nat × Nat)) (lf : Labels) (pos : Nat → Nat) (N : Nat) (hr : Resolves m lf pos N) (v : SVType)
+    (hv : ∀ t ∈ svTargets v, t ≤ N ∧ (lf.get (pos t)).isSome = true) : VType.resolve m (v.raw lf pos) = some v.fact := by
+  cases v with
+  | uninit t =>
+    have := hv t (by simp [svTargets])
+    simp [VType.resolve, SVType.raw, SVType.fact, hr.ok t this.1 this.2]
+  | _ => simp [VType.resolve, SVType.raw, SVType.fact]
+
+theorem vtypes_resolve (m : List (Nat × Nat)) (lf : Labels) (pos : Nat → Nat) (N : Nat) (hr : Resolves m lf pos N) (vs : List SVType)
+    (hv : ∀ t ∈ vs.flatMap svTargets, t ≤ N ∧ (lf.get (pos t)).isSome = true) :
+    mapM' (VType.resolve m) (vs.map (SVType.raw lf pos)) = some (vs.map SVType.fact) :=
+  mapM'_map _ _ _ vs (fun v hvm => vtype_resolve m lf pos N hr v (fun t ht => hv t (by
+    simp only [List.mem_flatMap]; exact ⟨v, hvm, ht⟩)))
+
+theorem frame_resolve (m : List (Nat × Nat)) (lf : Labels) (pos : Nat → Nat) (N : Nat) (hr : Resolves m lf pos N) (k : SFrameKind)
+    (hk : ∀ t ∈ kindTargets k, t ≤ N ∧ (lf.get (pos t)).isSome = true) : Frame.resolve m (k.raw lf pos) = some k.fact := by
+  cases k with
+  | same => rfl
+  | chop k => rfl
+  | same1 v => simp [Frame.resolve, SFrameKind.raw, SFrameKind.fact, vtype_resolve m lf pos N hr v hk]
+  | append vs => simp [Frame.resolve, SFrameKind.raw, SFrameKind.fact, vtypes_resolve m lf pos N hr vs hk]
+  | full ls ss =>
+    have h1 := vtypes_resolve m lf pos N hr ls (fun t ht => hk t (by simp [kindTargets, ht]))
+    have h2 := vtypes_resolve m lf pos N hr ss (fun t ht => hk t (by simp [kindTargets, ht]))
+    simp [Frame.resolve, SFrameKind.raw, SFrameKind.fact, h1, h2]
+
 theorem entries_resolve (m : List (Nat × Nat)) (lf : Labels) (pos : Nat → Nat) (N : Nat) (hr : Resolves m lf pos N)
-    (xs : List SInsn) (k : Nat)
-    (ht : ∀ si ∈ xs, ∀ t ∈ targetsOf si.insn, t ≤ N ∧ (lf.get (pos t)).isSome = true) :
-    mapM' (InsnEntry.resolve m) (entriesFrom lf pos k xs) = some (xs.map (fun si => ⟨none, none, si.insn⟩)) := by
-  induction xs generalizing k with
-  | nil => rfl
+    (xs : List SInsn) (k : Nat) (rem : List SFrame)
+    (ht : ∀ si ∈ xs, ∀ t ∈ targetsOf si.insn, t ≤ N ∧ (lf.get (pos t)).isSome = true)
+    (hf : ∀ f ∈ rem, ∀ t ∈ kindTargets f.kind, t ≤ N ∧ (lf.get (pos t)).isSome = true) :
+    mapM' (InsnEntry.resolve m) (entriesFrom lf pos rem k xs) = some (factEntries rem k xs) := by
+  induction xs generalizing k rem with
+  | nil => cases rem <;> rfl
   | cons x xs ih =>
     have h1 := insn_resolve m lf pos N hr x.insn (ht x (by simp))
-    have h2 := ih (k + 1) (fun si hsi => ht si (by simp [hsi]))
-    simp [entriesFrom, mapM', InsnEntry.resolve, h1, h2]
+    have ht' : ∀ si ∈ xs, ∀ t ∈ targetsOf si.insn, t ≤ N ∧ (lf.get (pos t)).isSome = true := fun si hsi => ht si (by simp [hsi])
+    cases rem with
+    | nil =>
+      have h2 := ih (k + 1) [] ht' (by simp)
+      simp [entriesFrom, factEntries, mapM', InsnEntry.resolve, h1, h2]
+    | cons f rest =>
+      by_cases hfk : f.at_ = k
+      · have h2 := ih (k + 1) rest ht' (fun g hg => hf g (by simp [hg]))
+        have h3 := frame_resolve m lf pos N hr f.kind (hf f (by simp))
+        simp [entriesFrom, factEntries, mapM', InsnEntry.resolve, h1, h2, h3, hfk]
+      · have h2 := ih (k + 1) (f :: rest) ht' hf
+        simp [entriesFrom, factEntries, mapM', InsnEntry.resolve, h1, h2, hfk]
+
+theorem svTargets_refs (pos : Nat → Nat) (v : SVType) : (svTargets v).map pos = v.refs pos := by
+  cases v <;> simp [svTargets, SVType.refs]
+
+theorem kindTargets_refs (pos : Nat → Nat) (k : SFrameKind) : (kindTargets k).map pos = k.refs pos := by
+  cases k with
+  | same => rfl
+  | chop _ => rfl
+  | same1 v => exact svTargets_refs pos v
+  | append vs =>
+    simp only [kindTargets, SFrameKind.refs, List.map_flatMap]
+    congr 1; funext v; exact svTargets_refs pos v
+  | full ls ss =>
+    simp only [kindTargets, SFrameKind.refs, List.map_append, List.map_flatMap]
+    congr 1 <;> (congr 1; funext v; exact svTargets_refs pos v)
+
+theorem svTargets_lt (p : Pool) (n : Nat) (v : SVType) (hv : v.Legal p n) (t : Nat) (ht : t ∈ svTargets v) : t < n := by
+  cases v <;> simp [svTargets] at ht
+  subst ht; exact hv
+
+theorem kindTargets_lt (p : Pool) (n : Nat) (k : SFrameKind) (hk : k.Legal p n) (t : Nat) (ht : t ∈ kindTargets k) : t < n := by
+  cases k with
+  | same => simp [kindTargets] at ht
+  | chop _ => simp [kindTargets] at ht
+  | same1 v => exact svTargets_lt p n v hk t ht
+  | append vs =>
+    simp only [kindTargets, List.mem_flatMap] at ht
+    obtain ⟨v, hv, ht⟩ := ht
+    exact svTargets_lt p n v (hk.2.2 v hv) t ht
+  | full ls ss =>
+    simp only [kindTargets, List.mem_append, List.mem_flatMap] at ht
+    rcases ht with ⟨v, hv, ht⟩ | ⟨v, hv, ht⟩
+    · exact svTargets_lt p n v (hk.2.2.1 v hv) t ht
+    · exact svTargets_lt p n v (hk.2.2.2 v hv) t ht
+
+theorem framesLegal_kind (p : Pool) (n : Nat) (pos : Nat → Nat) (prev : Option Nat) (fs : List SFrame)
+    (h : framesLegal p n pos prev fs) : ∀ f ∈ fs, f.kind.Legal p n := by
+  induction fs generalizing prev with
+  | nil => simp
+  | cons f fs ih =>
+    obtain ⟨_, _, h3, _, h5⟩ := h
+    intro g hg
+    rcases List.mem_cons.mp hg with rfl | hg
+    · exact h3
+    · exact ih (some f.at_) h5 g hg
 
 /-- **Code fidelity**: every legal encoding of a method body is read back, after label resolution, as exactly the
 description it was made from. -/
@@ -104,19 +199,31 @@ theorem readCode_resolve (p : Pool) (bsms : Option (List Bsm)) (c : CodeLayout) 
     ∃ raw, readCode p bsms (c.encode ++ r) = ok (raw, r) ∧ raw.resolve = some c.facts := by
   obtain ⟨lf, hwf, hcl, hrefs, hread⟩ := readCode_encode p bsms c hleg r
   refine ⟨c.raw lf, hread, ?_⟩
-  have hr : Resolves (labelIndex (entriesFrom lf c.pos 0 c.insns) (lf.get (c.pos c.insns.length))) lf c.pos c.insns.length :=
-    resolves_of_wf lf hwf c.insns
+  have hr : Resolves (labelIndex (entriesFrom lf c.pos (framesOf c.attrs) 0 c.insns) (lf.get (c.pos c.insns.length))) lf c.pos c.insns.length :=
+    resolves_of_wf lf hwf c.insns (framesOf c.attrs)
   have hN : ∀ t, t < c.insns.length → t ≤ c.insns.length := fun t h => Nat.le_of_lt h
   -- instructions
-  have hins : mapM' (InsnEntry.resolve (labelIndex (entriesFrom lf c.pos 0 c.insns) (lf.get (c.pos c.insns.length))))
-      (entriesFrom lf c.pos 0 c.insns) = some (c.insns.map (fun si => ⟨none, none, si.insn⟩)) :=
-    entries_resolve _ lf c.pos c.insns.length hr c.insns 0 (fun si hsi t ht => by
+  have hins : mapM' (InsnEntry.resolve (labelIndex (entriesFrom lf c.pos (framesOf c.attrs) 0 c.insns) (lf.get (c.pos c.insns.length))))
+      (entriesFrom lf c.pos (framesOf c.attrs) 0 c.insns) = some (factEntries (framesOf c.attrs) 0 c.insns) :=
+    entries_resolve _ lf c.pos c.insns.length hr c.insns 0 (framesOf c.attrs) (fun si hsi t ht => by
       obtain ⟨i, hi, rfl⟩ := List.getElem_of_mem hsi
       refine ⟨hN t (legal_targets_lt p bsms _ _ _ _ (hleg.code.legal i hi) t ht), hrefs _ ?_⟩
       simp only [CodeLayout.refOffsets, List.mem_append, targetOffsets, List.mem_flatMap, List.mem_map]
       exact Or.inl (Or.inl ⟨c.insns[i], List.getElem_mem hi, t, ht, rfl⟩))
+      (fun f hf t ht => by
+        obtain ⟨nc, fs, hm, hfm, _⟩ := framesOf_mem c.attrs f hf
+        have hla := hleg.attrs _ hm
+        simp only [SCodeAttr.Legal] at hla
+        have hk := framesLegal_kind p c.insns.length c.pos none fs hla.2.2.2.1 f hfm
+        refine ⟨hN t (kindTargets_lt p _ f.kind hk t ht), hrefs _ ?_⟩
+        simp only [CodeLayout.refOffsets, List.mem_append, List.mem_flatMap]
+        refine Or.inr ⟨_, hm, ?_⟩
+        simp only [attrRefs, List.mem_flatMap, List.mem_append]
+        refine ⟨f, hfm, Or.inl ?_⟩
+        rw [← kindTargets_refs]
+        exact List.mem_map.mpr ⟨t, ht, rfl⟩)
   -- exception table
-  have hexc : resolveExceptions (labelIndex (entriesFrom lf c.pos 0 c.insns) (lf.get (c.pos c.insns.length)))
+  have hexc : resolveExceptions (labelIndex (entriesFrom lf c.pos (framesOf c.attrs) 0 c.insns) (lf.get (c.pos c.insns.length)))
       (c.exceptions.map (fun e => (⟨labOf lf c.pos e.start, labOf lf c.pos e.end_, labOf lf c.pos e.handler, e.catch_⟩ : ExceptionEntry)))
       = some (c.exceptions.map (fun e => ⟨e.start, e.end_, e.handler, e.catch_⟩)) :=
     mapM'_map _ _ _ c.exceptions (fun e he => by
@@ -132,7 +239,7 @@ theorem readCode_resolve (p : Pool) (bsms : Option (List Bsm)) (c : CodeLayout) 
         exact Or.inl (Or.inr ⟨e, he, by simp⟩)
       simp [hr.ok e.start (hN _ hs) (hrefs _ m1), hr.ok e.end_ hen (hrefs _ m2), hr.ok e.handler (hN _ hh) (hrefs _ m3)])
   -- line numbers
-  have hlines : resolveLines (labelIndex (entriesFrom lf c.pos 0 c.insns) (lf.get (c.pos c.insns.length)))
+  have hlines : resolveLines (labelIndex (entriesFrom lf c.pos (framesOf c.attrs) 0 c.insns) (lf.get (c.pos c.insns.length)))
       (linesRaw lf c.pos c.attrs) = some (linesOf c.attrs) := by
     rw [linesRaw_eq]
     cases hl : linesOf c.attrs with
@@ -150,7 +257,7 @@ theorem readCode_resolve (p : Pool) (bsms : Option (List Bsm)) (c : CodeLayout) 
         simp [hr.ok e.1 (hN _ hlt) (hrefs _ m1)])]
       simp
   -- local variables
-  have hlocals : resolveLocals (labelIndex (entriesFrom lf c.pos 0 c.insns) (lf.get (c.pos c.insns.length)))
+  have hlocals : resolveLocals (labelIndex (entriesFrom lf c.pos (framesOf c.attrs) 0 c.insns) (lf.get (c.pos c.insns.length)))
       (localsRaw lf c.pos c.attrs) = some (localsOf c.attrs) := by
     rw [localsRaw_eq]
     cases hl : localsOf c.attrs with
